@@ -202,6 +202,7 @@ def run_tlc(module, cfg=None, workers=None, timeout=3600, simulate=None, depth=N
     e = dict(os.environ)
     if env:
         e.update(env)
+    e["JAVA_TOOL_OPTIONS"] = (e.get("JAVA_TOOL_OPTIONS", "") + " -Xss256m").strip()
     if dfs:
         e["JAVA_TOOL_OPTIONS"] = (e.get("JAVA_TOOL_OPTIONS", "") + " -Dtlc2.tool.queue.IStateQueue=StateDeque").strip()
     t0 = time.time()
@@ -233,6 +234,13 @@ def run_tlc(module, cfg=None, workers=None, timeout=3600, simulate=None, depth=N
     if res.violation:
         res.trace = re.findall(r"State \d+:.*?(?=\nState \d+:|\n\n\d+ states generated|\Z)", out, re.S)
     res.rc = p.returncode
+    try:
+        os.makedirs(SCRATCH, exist_ok=True)
+        with open(os.path.join(SCRATCH, "last_tlc_%s.log" % cfg), "w") as lf:
+            lf.write(out)
+    except OSError:
+        pass
+    res.errors = re.findall(r"Error: [^\n]*(?:\n(?!Error:)[^\n]*){0,6}", out)
     res.ok = (p.returncode == 0 and "Model checking completed. No error has been found." in out) or \
              (simulate and p.returncode in (0,) and not res.violation)
     if p.returncode == 124:
